@@ -101,6 +101,10 @@ class DensityInterp(TermInterp):
         super().stmt(st)
 
     def expr(self, e):
+        if isinstance(e, ast.Call) and dotted(e.func) in ("np.array_equal", "numpy.array_equal") and len(e.args) == 2:
+            a_, b_ = self.expr(e.args[0]), self.expr(e.args[1])
+            if isinstance(a_, (tuple, list)) and isinstance(b_, (tuple, list)):
+                return tuple(a_) == tuple(b_)  # order vectors are concrete here
         if isinstance(e, ast.Call) and dotted(e.func) in ("np.diag", "numpy.diag", "np.diagonal", "numpy.diagonal") and e.args and \
                 self.env.get(ast.unparse(e.args[0])) == "one_density_matrix":
             return Mask("diag")
